@@ -328,28 +328,66 @@ structure InputLayout where
 def commentLine (c : Nat × Line) : Line :=
   List.replicate c.1 ' ' ++ (if c.2.isEmpty then ['c'] else 'c' :: ' ' :: c.2)
 
-/-- lay out the words `w :: ws` with the given gaps; `cur` is the line under construction -/
-def renderWords (cur : Line) : Word → List Word → List Gap → Nat → Option Line → List Line
-  | w, [], _, trail, td =>
-    [cur ++ w ++ List.replicate trail ' ' ++ (match td with | some t => ' ' :: '$' :: t | none => [])]
-  | w, w' :: ws, [], trail, td => renderWords (cur ++ w ++ [' ']) w' ws [] trail td
-  | w, w' :: ws, g :: gs, trail, td =>
-    match g with
-    | .blanks n => renderWords (cur ++ w ++ List.replicate (n + 1) ' ') w' ws gs trail td
-    | .newline n => (cur ++ w) :: renderWords (List.replicate (5 + n) ' ') w' ws gs trail td
-    | .amp pre t n =>
-      (cur ++ w ++ List.replicate (pre + 1) ' ' ++ '&' :: List.replicate t ' ')
-        :: renderWords (List.replicate n ' ') w' ws gs trail td
-    | .dollar pre text n =>
-      (cur ++ w ++ List.replicate (pre + 1) ' ' ++ '$' :: text)
-        :: renderWords (List.replicate (5 + n) ' ') w' ws gs trail td
-    | .comments cs n =>
-      (cur ++ w) :: (cs.map commentLine ++ renderWords (List.replicate (5 + n) ' ') w' ws gs trail td)
+/-- how a data line ends -/
+inductive Tail
+  /-- `t` trailing blanks and, possibly, a `$` comment -/
+  | plain (t : Nat) (dollar : Option Line)
+  /-- blank(s), `&`, `t` trailing blanks -/
+  | amp (pre t : Nat)
+  /-- blank(s), a `$` comment -/
+  | dollar (pre : Nat) (text : Line)
+  deriving DecidableEq, Repr
 
-def renderInput (L : InputLayout) (ws : List Word) : List Line :=
+/-- a data line of a layout: indentation, first word, further words each behind `n + 1` blanks, the line end -/
+structure DLine where
+  indent : Nat
+  first : Word
+  rest : List (Nat × Word)
+  tail : Tail
+  deriving DecidableEq, Repr
+
+/-- a physical line of a layout -/
+inductive PLine
+  | data (d : DLine)
+  | comment (c : Nat × Line)
+  deriving DecidableEq, Repr
+
+def tailStr : Tail → Line
+  | .plain t none => List.replicate t ' '
+  | .plain t (some x) => List.replicate t ' ' ++ ' ' :: '$' :: x
+  | .amp pre t => List.replicate (pre + 1) ' ' ++ '&' :: List.replicate t ' '
+  | .dollar pre text => List.replicate (pre + 1) ' ' ++ '$' :: text
+
+def bodyStr (first : Word) (rest : List (Nat × Word)) : Line :=
+  first ++ rest.flatMap (fun p => List.replicate (p.1 + 1) ' ' ++ p.2)
+
+def DLine.str (d : DLine) : Line := List.replicate d.indent ' ' ++ bodyStr d.first d.rest ++ tailStr d.tail
+
+def PLine.str : PLine → Line
+  | .data d => d.str
+  | .comment c => commentLine c
+
+/-- lay out the remaining words with the given gaps; `(indent, first, rest)` is the line under construction -/
+def layWords (indent : Nat) (first : Word) (rest : List (Nat × Word)) :
+    List Word → List Gap → Nat → Option Line → List PLine
+  | [], _, trail, td => [.data ⟨indent, first, rest, .plain trail td⟩]
+  | w' :: ws, [], trail, td => layWords indent first (rest ++ [(0, w')]) ws [] trail td
+  | w' :: ws, g :: gs, trail, td =>
+    match g with
+    | .blanks n => layWords indent first (rest ++ [(n, w')]) ws gs trail td
+    | .newline n => .data ⟨indent, first, rest, .plain 0 none⟩ :: layWords (5 + n) w' [] ws gs trail td
+    | .amp pre t n => .data ⟨indent, first, rest, .amp pre t⟩ :: layWords n w' [] ws gs trail td
+    | .dollar pre text n => .data ⟨indent, first, rest, .dollar pre text⟩ :: layWords (5 + n) w' [] ws gs trail td
+    | .comments cs n =>
+      .data ⟨indent, first, rest, .plain 0 none⟩ :: (cs.map .comment ++ layWords (5 + n) w' [] ws gs trail td)
+
+/-- the physical lines of one input -/
+def layInput (L : InputLayout) (ws : List Word) : List PLine :=
   match ws with
   | [] => []
-  | w :: rest => L.pre.map commentLine ++ renderWords (List.replicate L.lead ' ') w rest L.gaps L.trail L.trailDollar
+  | w :: rest => L.pre.map .comment ++ layWords L.lead w [] rest L.gaps L.trail L.trailDollar
+
+def renderInput (L : InputLayout) (ws : List Word) : List Line := (layInput L ws).map PLine.str
 
 /-- the lines of a sequence of inputs (one block, or the body of a file pulled in by a read card) -/
 def renderInputs : List (InputLayout × List Word) → List Line
